@@ -583,8 +583,10 @@ def gen_volume_laplacian(src, tree, out, parts):
     loop = only_for(LAP, b, "volume_laplacian")
     e, ij = enumerate_loop(LAP, loop, "mesh.edges")
     lb = loop.body
-    if not (len(lb) == 6 and isinstance(ij, list) and len(ij) == 2 and ast.unparse(lb[0]) == "omega = 0"):
+    if not (len(lb) == 6 and isinstance(ij, list) and len(ij) == 2 and isinstance(lb[0], ast.Assign) and is_name(lb[0].targets[0])
+            and isinstance(lb[0].value, ast.Constant) and lb[0].value.value == 0):
         T.fail(LAP, loop, "unexpected shape of the per-edge body")
+    om = lb[0].targets[0].id
     vi, vj = ij
     inner = lb[1]
     if not (isinstance(inner, ast.For) and is_name(inner.target) and ast.unparse(inner.iter) == "mesh.connectivity.edge_to_cell(%s)" % e
@@ -630,17 +632,17 @@ def gen_volume_laplacian(src, tree, out, parts):
         T.fail(LAP, s4, "expected cot = ...")
     cotn = s4.targets[0].id
     cot = texpr(s4.value, Env(LAP, special=sp))
-    if not (isinstance(s5, ast.AugAssign) and isinstance(s5.op, ast.Add) and is_name(s5.target, "omega")):
+    if not (isinstance(s5, ast.AugAssign) and isinstance(s5.op, ast.Add) and is_name(s5.target, om)):
         T.fail(LAP, s5, "expected omega += ...")
     term = texpr(s5.value, Env(LAP, tnames={lname, cotn}))
-    env = Env(LAP, znames={vi, vj}, tnames={"omega"})
+    env = Env(LAP, znames={vi, vj}, tnames={om})
     co = [mat_assign(LAP, s, "mat", env) for s in lb[2:6]]
     out.append("(* ---- laplacian_op.volume_laplacian *)")
     out.append("Definition vl_face1 %s : Z * Z * Z := (%s)." % (binders([vi, vj, kk, ll], "Z"), ", ".join(cn(x) for x in faces[0])))
     out.append("Definition vl_face2 %s : Z * Z * Z := (%s)." % (binders([vi, vj, kk, ll], "Z"), ", ".join(cn(x) for x in faces[1])))
     out.append("Definition vl_cot (dot_Z1Z2 ncross_Z1Z2 : NUM_) : NUM_ := %s." % cot)
     out.append("Definition vl_term %s : NUM_ := %s." % (binders([lname, cotn], "NUM_"), term))
-    out.append("Definition vl_coeffs %s (omega : NUM_) : list (Z * Z * NUM_) := %s." % (binders([vi, vj], "Z"), tlist(co)))
+    out.append("Definition vl_coeffs %s %s : list (Z * Z * NUM_) := %s." % (binders([vi, vj], "Z"), binders([om], "NUM_"), tlist(co)))
 
 
 def gen_lap_tetrahedra(src, tree, out, parts):
